@@ -210,7 +210,7 @@ pub fn property() -> Property {
     Property {
         id: "C06",
         rule: "Exhaustive: all 532,480 (kind, cell, src, dst) tuples through Move::new against a coordinate-geometry predicate. \
-               Generated: valid positions (19 sources) x all 7,781 well-formed moves of both colours: is_semilegal <=> member of \
+               Generated: valid positions (20 sources) x all 7,781 well-formed moves of both colours: is_semilegal <=> member of \
                semilegal::gen_all <=> member of the reference pseudo-legal set; generated moves are well-formed and name the man on \
                their source square; gen_all = gen_capture + gen_simple and gen_simple = no_promote + promote as multisets. \
                Non-trivial = position whose pseudo-legal set differs from its legal set, or with a castling candidate rejected, \
